@@ -146,7 +146,8 @@ func checkC02(p *Program, r *Report) {
 		"regrouping-direction, prefix-present and single-case tests lie on every accepting path with the specified constants. C02.padding: the 5→8 bit " +
 		"regrouping rejects exactly under the reference condition bits ≥ fromBits ∨ ((acc << (toBits − bits)) & maxv) ≠ 0 when not padding. C02.checksum: " +
 		"every accepting return of the CashAddr decoder is behind the remainder test, of DecodeAddress behind a checksum-verifying decoder (or is the raw " +
-		"public-key arm). Not decided: injectivity of the whole decoding as a value-level statement; foreign-prefix rejection (a consequence of the checksum covering the prefix, see C03)."
+		"public-key arm). C02.canon: no decoder rewrites its input with a normalising or Unicode case-mapping function (only ASCII folding), the per-character case " +
+		"flags test exact ASCII ranges, and Base58 symbols are looked up per byte. Not decided: injectivity of the whole decoding as a value-level statement; foreign-prefix rejection (a consequence of the checksum covering the prefix, see C03)."
 	r.Trusted = []string{"CashAddr specification: payload = version byte + hash; regrouping 5↔8 with zero padding", "bchec.ParsePubKey"}
 
 	decoders := []entryRef{{"", "DecodeAddress"}, {"", "DecodeCashAddress"}, {"", "DecodeWIF"}, {"hdkeychain", "NewKeyFromString"},
@@ -249,6 +250,7 @@ func checkC02(p *Program, r *Report) {
 		})
 	}
 	r.Floor("C02.exhaustive", 12)
+	r.Floor("C02.canon", 3)
 
 	c02guards(p, r, scope)
 	c02padding(p, r)
